@@ -543,6 +543,20 @@ func runC03(c *Ctx) error {
 			}
 		}
 	}
+	// loaded packages with malformed declarations: what runs before the compiler's recover (declareFuncs, the loader)
+	// must not trust the shape of the tree (fix 4879215)
+	for _, src := range []string{"package main\nx, ; := 1\n", "package main\nvar (\n\t, = 1\n)\n", "package main\nfunc () {}\n", "package main\nconst x, = 1\nvar q.r = 2\nvar a[0] = 1\n",
+		"package main\nvar = 1\n", "package main\nconst (\n\t= iota\n)\n", "package main\n:= 1\n", "package main\nvar x, ; int\n", "package main\nfunc\n", "package\nvar x = 1\n", "package main\nvar (\n", "package main\nvar ()\nconst ()\nx := ;\n"} {
+		for _, files := range []map[string]string{{"main/main.go": src}, {"main/main.go": "package main\nimport \"dep\"\n", "dep/dep.go": strings.Replace(src, "package main", "package dep", 1)}} {
+			k := c03Case{Kind: "load", Files: files, Arg: "main"}
+			verdict, _ := k.run()
+			c.Rep.Oracle["no-escape"]++
+			c.Rep.Count("load-malformed-declaration")
+			if verdict != "" {
+				c.Rep.Violate(Violation{Kind: "crash", Cut: "no-escape", Input: k, Impl: verdict, Oracle: "returns to the host with a staged error"})
+			}
+		}
+	}
 	for i, k := range c.c03Cases(n) {
 		verdict, et := k.run()
 		key, _ := json.Marshal(k)
